@@ -63,6 +63,11 @@ Definition c11_lift (k d : nat) (ps : list QcPoly) (lift_by : Z) (coords : list 
   : list Z :=
   show_vecs (lift (jfp k d ps) lift_by coords t).
 
+(* the specification: D_t^l f, l = 0..m, at the coefficients (Spec/ODESeries.v lift_spec) *)
+Definition c11_lift_spec (k d : nat) (ps : list QcPoly) (m : nat) (coords : list (list Qc)) (t : Qc)
+  : list Z :=
+  show_vecs (Some (lift_spec k d ps m coords t)).
+
 (* (num_tcoeffs_in_args, tcoeff_indices_output) advertised by ode.jet_lift(lift_by) *)
 Definition c11_ode_signature (k idx : nat) (lift_by : Z) : list Z :=
   let '(k', out) := ode_lift_signature k idx lift_by in k' :: map Z.of_nat out.
